@@ -110,7 +110,7 @@ def check(ctx, env):
         "closures, reified fn pointers, Drop impls) is either discharged by a symbolic prover (dominating successful "
         "check_buffer_boundaries facts, exact array/sub-range lengths, integer upper bounds; no solver) or counted against a "
         "reviewed budget keyed by (function, site kind); any site beyond that is a violation. (R3.2) size clause and (R3.3) "
-        "loop progress are expression-tree facts; (R3.4) buffer hand-back on every return path of the reassembler. 'The "
+        "loop progress are expression-tree facts; (R3.4) buffer hand-back on every return path of the reassembler; (R3.5, evaluated as the premise of the budget entries it justifies) the wire-attribute iterator and the two decode loops are safe by an inductive linear proof; (R3.6) rejected buffers leave client and mechanism state unchanged. 'The "
         "result depends only on those first bytes' is NOT decided.")
     ctx.assumptions = ["rustc MIR (debug assertions + overflow checks on)",
                        "std/core/alloc functions outside analysis/panics.py MAY_PANIC do not panic",
@@ -143,3 +143,9 @@ def check(ctx, env):
     r3_2_size(ctx, prog)
     r3_3_progress(ctx, prog)
     r3_4_reassembler(ctx, prog)
+    # "... and the client remains usable": a buffer that is rejected or ignored leaves the client's and the mechanism's
+    # state as it was (same rules as C17 R17.1 / R17.2), so untrusted bytes cannot park it in a dead-end state
+    from . import client_rules as R
+    from . import mech_rules as M
+    R.r17_1_reject(ctx, prog, rule="R3.6")
+    M.r17_2_mechanisms(ctx, prog, rule="R3.6")
